@@ -279,3 +279,29 @@ class TableFilter(dsw.DefaultBioFilter):
 
 def kmer(v, k):
     return "".join(NUC[(v // 4 ** (k - 1 - i)) % 4] for i in range(k))
+
+
+def wellformed_from(rows, v0):
+    """every vertex reachable from v0 is in range, live, and reaches a vertex with >= 2 arcs"""
+    n = len(rows)
+    if not (0 <= v0 < n):
+        return False
+    seen, todo = {v0}, [v0]
+    while todo:
+        v = todo.pop()
+        for w in rows[v]:
+            if w >= 0:
+                if w >= n:
+                    return False
+                if w not in seen:
+                    seen.add(w)
+                    todo.append(w)
+    good = set(v for v in seen if sum(1 for w in rows[v] if w >= 0) >= 2)
+    changed = True
+    while changed:
+        changed = False
+        for v in seen:
+            if v not in good and any(w in good for w in rows[v] if w >= 0):
+                good.add(v)
+                changed = True
+    return good == seen and all(any(w >= 0 for w in rows[v]) for v in seen)
